@@ -150,6 +150,11 @@ class Ref(object):
         raise ValueError("unknown kind", kind)
 
     @expose
+    def __total__(self, n=0):       # an exposed custom dunder method is an ordinary remote method
+        self.log.append(["__total__", n])
+        return [self.counter, len(self.items), n]
+
+    @expose
     def snapshot(self):
         self.log.append(["snapshot"])
         return {"counter": self.counter, "items": list(self.items), "dict": [[k, v] for k, v in self.d.items()],
@@ -181,7 +186,7 @@ class Ref(object):
         return self.counter
 
 
-EXPOSED = ("incr", "append", "put", "get", "echo", "fail_if", "snapshot")     # the harness's own exposure rule
+EXPOSED = ("incr", "append", "put", "get", "echo", "fail_if", "snapshot", "__total__")     # the harness's own exposure rule
 REFUSED_NAMES = ("hidden", "_private", "__secret__", "__dict__", "__class__", "__init__", "nosuch", "incr.x", "snapshot.log",
                  "Incr", "", "incr ", "_pyroId", "log", "counter", "hidden.x", "__getattribute__", "secret_prop", "open_prop")
 NEVER_RUN = ("hidden", "_private", "__secret__", "secret_prop", "open_prop")
@@ -283,7 +288,7 @@ def public_api_can_spell(calls):
     """names that can be written through BatchProxy's attribute syntax (getattr chain); dunders resolve on the local object"""
     for name, _args, kwargs in calls:
         parts = name.split(".")
-        if any(p.startswith("__") for p in parts) or parts[0] in ("_pyroInvoke",) or "self" in kwargs:
+        if any(p.startswith("__") and p != "__total__" for p in parts) or parts[0] in ("_pyroInvoke",) or "self" in kwargs:
             return False
     return True
 
@@ -300,7 +305,7 @@ def execute(case, api):
     oneway = bool(case["oneway"])
     obj = Ref()
     _oid[0] += 1
-    oid = "c11.%d" % _oid[0]
+    oid = "c11.%d" % (_oid[0] % 3)     # ids are re-used for the next fresh object (each one is unregistered when its case is over)
     served.daemon.register(obj, oid)
     p = live.proxy(served.uri(oid), serializer=case["ser"], timeout=HANG_GUARD_S)
     out = Outcome()
@@ -555,7 +560,7 @@ dict_keys = st.one_of(st.sampled_from(KEY_POOL), st.sampled_from(KEY_POOL),
 messages = st.one_of(st.sampled_from(["boom", "boom", "", "é漢", "it's \"quoted\"\\", "\x00", "line\nbreak", "\U0001f600"]),
                      st.text(alphabet=st.characters(exclude_categories=("Cs",)), max_size=8))
 kw_names = st.sampled_from(["a", "b", "x", "n", "k", "v", "kind", "_u", "été", "名", "αβ", "class_", "def", "K9"])
-POS_PARAMS = {"incr": ["n"], "append": ["x"], "put": ["k", "v"], "get": ["k"], "fail_if": ["flag", "kind", "msg", "code"]}
+POS_PARAMS = {"__total__": ["n"], "incr": ["n"], "append": ["x"], "put": ["k", "v"], "get": ["k"], "fail_if": ["flag", "kind", "msg", "code"]}
 
 
 def _fixed(name, *arg_strategies):
@@ -574,7 +579,8 @@ _put = _fixed("put", dict_keys, small_values)
 _get = _fixed("get", dict_keys)
 _echo = st.tuples(st.lists(small_values, max_size=3), st.dictionaries(kw_names, small_values, max_size=3)).map(lambda t: ["echo", t[0], t[1]])
 _fail_no = _fixed("fail_if", st.sampled_from([False, 0, "", None, [], 0.0]), st.sampled_from(FAIL_KINDS), messages, small_ints)
-benign_call = st.one_of(_incr, _incr, st.just(["incr", [], {}]), _append, _append, _put, _put, _put, _get, _echo, _echo, _fail_no,
+_total = _fixed("__total__", small_ints)
+benign_call = st.one_of(_total, _incr, _incr, st.just(["incr", [], {}]), _append, _append, _put, _put, _put, _get, _echo, _echo, _fail_no,
                         st.just(["snapshot", [], {}]))
 
 _raise = _fixed("fail_if", st.sampled_from([True, 1, "x", [0], -1.5, {"a": None}]),
